@@ -1,6 +1,7 @@
 (* Property C03: operator algebra builds the operator of the corresponding matrix expression. *)
 From Coq Require Import List Arith Bool ZArith.
 From Core Require Import Base Kron Op OpProofs Algebra AlgebraProofs AlgebraKron AlgebraMore AlgebraExpr ZIInst.
+From Core Require DtypeTable AlgDtype.
 Import ListNotations.
 
 Theorem C03_add_sound : forall (R : Type) (RR : Ring R) (CR : CRing R) (a b c : op (R:=R)),
@@ -86,3 +87,19 @@ Example C03_example :
   let x := AAdd (ADot (ALeaf A) (AKron (ALeaf (Diag 1 (fun _ => (2,0)%Z))) (ALeaf A))) (AMul (ANeg (ALeaf (Ident 2))) (0,1)%Z) in
   inscope x = true /\ exists s M, deval x = DOk s M.
 Proof. cbv zeta. split; [reflexivity|]. eexists; eexists; reflexivity. Qed.
+
+(* dtype clause: the dtype of an algebraic expression is the promoted dtype of all its operands (least upper bound in the
+   promotion order of the generated numpy table; scalars weak, a complex scalar contributes complex64), whatever the
+   nesting and the order of the operands *)
+Theorem C03_result_dtype_is_promotion : forall e : AlgDtype.dexp,
+  Forall (fun d => AlgDtype.dle d (AlgDtype.dxtype e)) (AlgDtype.dops e) /\
+  (forall u, Forall (fun d => AlgDtype.dle d u) (AlgDtype.dops e) -> AlgDtype.dle (AlgDtype.dxtype e) u).
+Proof. intros e. exact (Logic.conj (AlgDtype.dxtype_upper e) (AlgDtype.dxtype_least e)). Qed.
+Print Assumptions C03_result_dtype_is_promotion.
+Theorem C03_result_dtype_operands_only : forall e1 e2 : AlgDtype.dexp,
+  (forall d, In d (AlgDtype.dops e1) <-> In d (AlgDtype.dops e2)) -> AlgDtype.dxtype e1 = AlgDtype.dxtype e2.
+Proof. exact AlgDtype.dxtype_operands_only. Qed.
+Print Assumptions C03_result_dtype_operands_only.
+Example C03_dtype_example :
+  AlgDtype.dxtype (AlgDtype.DXScal true (AlgDtype.DXBin (AlgDtype.DXLeaf DtypeTable.F32) (AlgDtype.DXList (AlgDtype.DXLeaf DtypeTable.I32) [AlgDtype.DXNeg (AlgDtype.DXLeaf DtypeTable.F32)]))) = DtypeTable.C128.
+Proof. reflexivity. Qed.
